@@ -21,6 +21,7 @@ RULE = ('non-tabulated running distances as bare numbers (every whole metre 20..
 ASSUMPTIONS = ['the distance a code denotes is computed by the check (N m, 1000 N m for K, 1609 N m for M), not taken from get_distance',
                '1e-4 (the tables\' resolution) absorbs the 1 609 m vs 1 609.344 m mile used by get_distance',
                'the factor of the bracketing tabulated rows is obtained through the public function (decided by C14)']
+RULE = RULE + '; every whole kilometre / mile also written N.0 / N.00; ages include 47.25, 61.75, 83.1; interleaved histories include tabulated, field and raising calls'
 
 AGES = [35, 47.25, 50, 61.75, 72.5, 83.1, 90, 100]      # whole, half and other fractional ages
 _tab = {}
